@@ -1,11 +1,8 @@
 import SwhVerif.Base.Bytes
+import SwhVerif.Base.Err
 import SwhVerif.Gen.Tables
 /-! Model of timestamps, UTC offsets and date formatting (C16; used by C03, C04, C15). -/
 namespace Swh
-
-inductive ErrKind where
-  | validation | valueError | typeError | assertion | other
-  deriving DecidableEq, Repr
 
 /-- `f"{n:02}"` -/
 def pad2 (n : Nat) : Bytes := if n < 10 then bZero :: dec n else dec n
